@@ -16,6 +16,7 @@ import Rl.Drv.RawMode
 import Rl.Drv.Printer
 import Rl.Drv.Sqlite
 import Rl.Drv.Render
+import Rl.Drv.LineBuffer
 open Rl Rl.Wire
 
 def dispatch (tbl : CharTable) (target : String) (f : List String) (impl : String) : String × String :=
@@ -30,6 +31,8 @@ def dispatch (tbl : CharTable) (target : String) (f : List String) (impl : Strin
     | "pr" => Rl.Drv.Printer.handle tbl f impl
     | "sqlite" => Rl.Drv.Sqlite.handle tbl f impl
     | "render" => Rl.Drv.Render.handle tbl f impl
+    | "lb" => Rl.Drv.LineBuffer.handle tbl f impl
+    | "lb4" => Rl.Drv.LineBuffer.handle4 tbl f impl
     | "comp" | "clcp" | "cfs" => Rl.Drv.Completion.handle target tbl f impl
     | _ =>
       if target.startsWith "ed" then Rl.Drv.Ed.handle tbl target f impl
